@@ -65,7 +65,8 @@ def _case_lb(draw, max_len):
         for pos in draw(st.lists(st.integers(0, len(s1) - 1), min_size=1, max_size=3)):
             s1[pos] = e
     return {'s1': s1, 's2': s2, 'sign': sign, 'window': window,
-            'penalty': draw(gen.penalty_strategy('L')), 'inner': draw(st.sampled_from(gen.INNER_NAMES))}
+            'penalty': draw(gen.penalty_strategy('L')), 'inner': draw(st.sampled_from(gen.INNER_NAMES)),
+            'custom': draw(st.sampled_from([[], [], ['custom_cubic'], ['custom_double'], ['custom_abs', 'custom_pow4']]))}
 
 
 @st.composite
@@ -101,6 +102,13 @@ def run_lb(case):
         ('dtw_cc.lb_keogh', lambda: dtw_cc.lb_keogh(a1, a2, window=w, inner_dist=inner)),
         ('C:lb_keogh', lambda: L.lb_keogh(capi.ptr(f1), len(s1), capi.ptr(f2), len(s2), ctypes.byref(cs))),
     ]
+    # the Python engine also takes the inner distance as an object: the library's own classes (same bound as for the
+    # name) and user-supplied ones (the bound of that inner distance, which must not exceed the DTW distance under it)
+    from dtaidistance import innerdistance
+    from .. import inner as vinner
+    own = innerdistance.SquaredEuclidean if inner == 'squared euclidean' else innerdistance.Euclidean
+    impls.append(('py.lb_keogh[class object]', lambda: dtw.lb_keogh(list(s1), list(s2), window=w, inner_dist=own)))
+    impls.append(('py.lb_keogh[instance]', lambda: dtw.lb_keogh(a1, a2, window=w, inner_dist=own())))
     for name, fn in impls:
         v, exc = libcall(fn)
         if exc:
@@ -110,6 +118,18 @@ def run_lb(case):
             res.fail('lb:%s:exceeds-dtw' % name, '%s=%r > DTW=%r (window=%r)' % (name, v, d, w))
         if not ref.close(v, lb):
             res.fail('lb:%s:value' % name, '%s=%r, reference LB_Keogh=%r' % (name, v, lb))
+    for cname in case.get('custom', ()):
+        dc = ref.ref_dtw(s1, s2, window=w, penalty=case['penalty'], inner=cname)
+        lbc = ref.ref_lb_keogh(s1, s2, window=w, inner=cname)
+        v, exc = libcall(dtw.lb_keogh, list(s1), list(s2), window=w, inner_dist=vinner.lib_inner(cname))
+        name = 'py.lb_keogh[%s]' % cname
+        if exc:
+            res.fail('lb:%s:%s' % (name, exc), 'raised')
+            continue
+        if not ref.leq(v, dc):
+            res.fail('lb:%s:exceeds-dtw' % name, '%s=%r > DTW=%r under the same inner distance (window=%r)' % (name, v, dc, w))
+        if not ref.close(v, lbc):
+            res.fail('lb:%s:value' % name, '%s=%r, reference LB_Keogh=%r' % (name, v, lbc))
     return res
 
 
